@@ -46,6 +46,26 @@ Theorem C20_table_structure : forall (with_weight has_tz : bool) heading jobs,
     Permutation jobs rows /\ length rows = length jobs /\
     StronglySorted (fun a b => v_due a <= v_due b) rows.
 Proof. exact table_structure. Qed.
+(* str(scheduler) itself, both front ends: the meta line of Scheduler.__headings (max_exec / tzinfo / priority function
+   name; "#jobs=" followed by the true count) and the table *)
+Theorem C20_scheduler_str : forall mx tz pname jobs,
+  (exists rows,
+    sched_str_thr mx tz pname jobs =
+      heading_thr mx tz pname ++ dec (Z.of_nat (length jobs)) ++ [NL; NL] ++
+      fmt_row (cols_of true (is_some tz)) (pick_of (is_some tz) names_thr) ++
+      fmt_row (cols_of true (is_some tz)) (pick_of (is_some tz) (map (fun c : col => dashes (snd c)) COLS_THR)) ++
+      concat_str (map (fun v => fmt_row (cols_of true (is_some tz)) (pick_of (is_some tz) (row_cells true v))) rows) /\
+    Permutation jobs rows /\ length rows = length jobs /\
+    StronglySorted (fun a b => v_due a <= v_due b) rows) /\
+  (exists rows,
+    sched_str_aio tz jobs =
+      heading_aio tz ++ dec (Z.of_nat (length jobs)) ++ [NL; NL] ++
+      fmt_row (cols_of false (is_some tz)) (pick_of (is_some tz) names_aio) ++
+      fmt_row (cols_of false (is_some tz)) (pick_of (is_some tz) (map (fun c : col => dashes (snd c)) COLS_AIO)) ++
+      concat_str (map (fun v => fmt_row (cols_of false (is_some tz)) (pick_of (is_some tz) (row_cells false v))) rows) /\
+    Permutation jobs rows /\ length rows = length jobs /\
+    StronglySorted (fun a b => v_due a <= v_due b) rows).
+Proof. exact sched_str_structure. Qed.
 Theorem C20_count_rendering_exact : forall n, 0 <= n < 10 ^ 40 -> undigits 0 (dec n) = n.
 Proof. exact dec_correct. Qed.
 
@@ -72,4 +92,5 @@ Print Assumptions C20_str_cutoff_length.
 Print Assumptions C20_str_cutoff_marker.
 Print Assumptions C20_row_width_eq_header.
 Print Assumptions C20_table_structure.
+Print Assumptions C20_scheduler_str.
 Print Assumptions C20_count_rendering_exact.
